@@ -30,9 +30,10 @@ Qed.
 Lemma inside_loop_enter_fn pure ctx : inside_loop (enter_fn pure ctx) = false.
 Proof. unfold enter_fn, enter_pure. destruct pure; reflexivity. Qed.
 
-(* loop_ctx: the checker's inside_loop flag at a position is true iff the position is inside the body of a
+(* loop_ctx: the checker's inside_loop flag at a position is true iff the position is inside the BODY of a
    loop OF THE SAME FUNCTION (true of the model since c3c408a; it was false before: the flag used to be
-   inherited by nested functions) *)
+   inherited by nested functions).  The condition of a loop is not part of a loop body, not even of an
+   enclosing loop's (in_own_loop resets at a condition, as the checker does since fcfe8d3). *)
 Theorem loop_ctx :
   (forall C ctx, inside_loop (ctx_at_e C ctx) = in_own_loop_e C (inside_loop ctx)) /\
   (forall C ctx, inside_loop (ctx_at_s C ctx) = in_own_loop_s C (inside_loop ctx)).
@@ -48,7 +49,7 @@ Proof.
       all: try (rewrite IHs by lia; rewrite inside_loop_enter_fn; reflexivity).
     - destruct C; cbn [ctx_at_s in_own_loop_s]; cbn [sctx_size] in Hn; try reflexivity;
         try (apply IHe; lia); try (apply IHs; lia).
-      all: try (rewrite IHs by lia; reflexivity). }
+      all: try (rewrite IHs by lia; reflexivity); try (rewrite IHe by lia; reflexivity). }
   split; intros C ctx; [apply (proj1 (X (ectx_size C)))|apply (proj2 (X (sctx_size C)))]; lia.
 Qed.
 
@@ -68,7 +69,7 @@ Proof.
                 reflexivity).
     - destruct C; cbn [ctx_at_s through_pure_s]; cbn [sctx_size] in Hn; try reflexivity;
         try (apply IHe; lia); try (apply IHs; lia).
-      all: try (rewrite IHs by lia; reflexivity). }
+      all: try (rewrite IHs by lia; reflexivity); try (rewrite IHe by lia; reflexivity). }
   split; intros C ctx; [apply (proj1 (X (ectx_size C)))|apply (proj2 (X (sctx_size C)))]; lia.
 Qed.
 
